@@ -74,7 +74,7 @@ def main():
         finally:
             subprocess.run(['git', '-C', '/repo', 'worktree', 'remove', '--force', wt], capture_output=True)
             shutil.rmtree(wt, ignore_errors=True)
-    json.dump(results, open(rpath, 'w'), indent=1, sort_keys=True)
+            json.dump(results, open(rpath, 'w'), indent=1, sort_keys=True)
 
 
 if __name__ == '__main__':
